@@ -530,6 +530,18 @@ def flatten : Option Act → Forest → List Ev
   | o, .exec b on cap body rest => pre b on cap ++ flatten (some b) body ++ post b cap ++ flatten o rest
   | o, .kw _ rest => flatten o rest
 
+/-- a list of steps of capture-off executions only (any order: threads may interleave them at will) -/
+def ncOnly : List Ev → Bool
+  | [] => true
+  | .getlive _ _ :: rest | .swapNC _ :: rest | .restoreNC _ :: rest | .write _ _ :: rest => ncOnly rest
+  | _ => false
+
+/-- every write of a list, in order -/
+def allWrites : List Ev → List Tok
+  | [] => []
+  | .write a n :: rest => (a, n) :: allWrites rest
+  | _ :: rest => allWrites rest
+
 /-- one execution of `a` with capture off whose callable runs the scenario `body`; `try/finally`: the same steps
     whatever the callable returns or raises (Exception or BaseException) -/
 def execNC (a : Act) (on : Bool) (body : Forest) : List Ev :=
